@@ -47,6 +47,8 @@ type provCfg struct {
 	// invoke) the result derives from; nil,false = default (all args + "call:key" marker).
 	// FollowCallers: resolve parameters of unexported functions through module call sites.
 	FollowCallers bool
+	// FollowParam restricts FollowCallers to some parameters (nil = all).
+	FollowParam func(p *ssa.Parameter) bool
 	// InlineResults: look into module callees' return values.
 	InlineResults bool
 	MaxDepth      int
@@ -125,7 +127,7 @@ func (st *provState) visit(v ssa.Value, rs RootSet, depth int) {
 			rs.add("param:" + p)
 		}
 		// parameters of unexported functions: follow callers
-		if par, isPar := v.(*ssa.Parameter); isPar && st.cfg.FollowCallers && depth < st.cfg.MaxDepth {
+		if par, isPar := v.(*ssa.Parameter); isPar && st.cfg.FollowCallers && depth < st.cfg.MaxDepth && (st.cfg.FollowParam == nil || st.cfg.FollowParam(par)) {
 			st.followCallers(par, rs, depth)
 		}
 		if _, isPar := v.(*ssa.Parameter); isPar {
@@ -277,8 +279,8 @@ func (st *provState) visitCallResult(call ssa.Value, idx int, rs RootSet, depth 
 			sub.cfg.FollowCallers = false
 			inner := RootSet{}
 			for _, r := range returnsOf(f) {
-				if idx < len(r.Results) {
-					sub.visit(r.Results[idx], inner, depth+1)
+				if idx < len(retResults(r)) {
+					sub.visit(retResults(r)[idx], inner, depth+1)
 				}
 			}
 			rs.add("via:" + key)
